@@ -448,6 +448,7 @@ def keys_file(rep):
             L += ['/-- `%s_iter` could not be translated: %s -/' % (tab, str(ex).replace('-/', '- /')),
                   'def %sIterLo : Bytes := untranslatable_source "%s_iter"' % (tab, tab), '']
             rep['untranslatable'].append('%s_iter: %s' % (tab, ex))
+    L += index_walkers(rep)
     L += ['end Pocket.Src', '']
     return '\n'.join(L)
 
@@ -649,6 +650,64 @@ def filter_header(rep):
         L += ['/-- the header of `Filter::from_parts` could not be translated: %s -/' % str(ex).replace('-/', '- /'),
               'def filterHeader : Bytes := untranslatable_source "Filter::from_parts header"', '']
         rep['untranslatable'].append('filter header: %s' % ex)
+    return L
+
+
+def index_walkers(rep):
+    """`Lmdb::index` and `Lmdb::deindex` as functions from an event to the (table, key) pairs they put / delete: the fixed entries and,
+    for every tag whose name is one byte and which has a value (the guard chain of the loop), the three tag-table entries"""
+    src = open(os.path.join(REPO, 'pocket-db/src/lmdb/mod.rs')).read()
+    L = []
+    argmap = {'event.created_at()': 'e.createdAt', 'event.id()': 'e.id', 'event.pubkey()': 'e.pubkey', 'event.kind()': 'e.kind',
+              'tagname[0]': 'l', 'tagvalue': 'v'}
+    keyfn = {'ci': 'keyCi', 'tc': 'keyTc', 'ac': 'keyAc', 'akc': 'keyAkc', 'atc': 'keyAtc', 'ktc': 'keyKtc'}
+    for fn, verb, lean in (('index', 'put', 'indexKeys'), ('deindex', 'delete', 'deindexKeys')):
+        try:
+            _, body = fn_text(src, fn)
+            b = re.sub(r'\s+', '', body)
+            loop = re.search(r'formuttsiinevent\.tags\(\)\?\.iter\(\)\{ifletSome\(tagname\)=tsi\.next\(\)\{iftagname\.len\(\)==1\{ifletSome\(tagvalue\)=tsi\.next\(\)\{(.*?)\}\}\}\}', b)
+            if not loop:
+                raise Untranslatable('%s: the tag loop is not "for each tag: a name, of one byte, and a value"' % fn)
+            inner, outer = loop.group(1), b[:loop.start()] + b[loop.end():]
+            oprx = re.compile(r'(?:let_=)?self\.(\w+?)_index\.%s\(txn,&Self::key_(\w+?)_index\(([^()]*(?:\(\)[^()]*)*?),?\),?(?:&offset,?)?\)\?;' % verb)
+
+            def ops(txt, allow_id):
+                out, pos = [], 0
+                while pos < len(txt):
+                    m = oprx.match(txt, pos)
+                    if m:
+                        if m.group(1) != m.group(2) or m.group(1) not in keyfn:
+                            raise Untranslatable('%s: table %s written with key_%s_index' % (fn, m.group(1), m.group(2)))
+                        args = []
+                        for a in [x for x in m.group(3).split(',') if x]:
+                            if a not in argmap:
+                                raise Untranslatable('%s: key argument %r' % (fn, a))
+                            args.append(argmap[a])
+                        out.append('("%s", %s %s)' % (m.group(1), keyfn[m.group(1)], ' '.join(args)))
+                        pos = m.end()
+                        continue
+                    m = re.match(r'self\.i_index\.put\(txn,event\.id\(\)\.as_slice\(\),&offset\)\?;', txt[pos:])
+                    if m and allow_id:
+                        pos += m.end()
+                        continue
+                    if txt[pos:] == 'Ok(())':
+                        break
+                    raise Untranslatable('%s: statement %r' % (fn, txt[pos:pos + 50]))
+                return out
+            fixed = ops(outer, fn == 'index')
+            tagops = ops(inner, False)
+            L += ['/-- `Lmdb::%s`: the (table, key) pairs it %ss for an event (the id index apart) -/' % (fn, verb),
+                  'def %s (e : EventRec) : List (String × Bytes) :=' % lean,
+                  '  [%s] ++' % ', '.join(fixed),
+                  '  (e.tags.filterMap fun t =>',
+                  '    match t with',
+                  '    | [l] :: v :: _ => some [%s]' % ', '.join(tagops),
+                  '    | _ => none).flatten', '']
+            rep['translated'].append('lmdb/mod.rs:%s (%d + %d per tag)' % (fn, len(fixed), len(tagops)))
+        except Untranslatable as ex:
+            L += ['/-- `Lmdb::%s` could not be translated: %s -/' % (fn, str(ex).replace('-/', '- /')),
+                  'def %s (e : EventRec) : List (String × Bytes) := untranslatable_source "%s"' % (lean, fn), '']
+            rep['untranslatable'].append('%s: %s' % (fn, ex))
     return L
 
 
